@@ -20,6 +20,7 @@ THEOREMS = [
     ("EG.props.C07", "C07_short_body_is_error"),
     ("EG.props.C07", "C07_big_response_withheld"),
     ("EG.props.C07", "C07_response_within_limit_delivered"),
+    ("EG.props.C07", "C07_limit_in_force_across_reloads"),
     ("EG.props.C07", "C07_checker_sound"),
     ("EG.props.C07", "C07_len_model_agrees"),
 ]
@@ -31,7 +32,9 @@ HARNESSES = [
 GROUPS = {"body": "check_body", "big": "check_big", "reload": "check_reload"}
 EXPLAIN = {"body": "explain_body", "big": "explain_big", "reload": "explain_reload"}
 CASES = {"quick": 500, "thorough": 6000}
-RULE = ("limits include negative values other than -1 (-2, -1024, MinInt64+1: any negative streams); one case in 10 (and 1 in 5 of the ordinary ones) has a "
+RULE = ("reload histories also reload the PIPELINE (Pipeline.Inherit -> Proxy.Inherit) when pool / proxy serverMaxBodySize or the pool's memoryCache spec change between "
+        "steps: cacheable GETs answered and cached, the limit lowered / raised / unchanged with the cache spec kept or changed, the same GET again, response bodies at and "
+        "around both limits; limits include negative values other than -1 (-2, -1024, MinInt64+1: any negative streams); one case in 10 (and 1 in 5 of the ordinary ones) has a "
         "mirrorPool on a second recording backend whose filter matches requests carrying X-Mirror, with streamed and buffered, announced and chunked uploads up to 70000 bytes; "
         "one case in 10 has a pool retryPolicy (2 attempts) + failureCodes and a backend that fails the first attempt after reading the body, with buffered "
         "and streamed (-1) requests of 0..5000 bytes, announced and chunked; one case in 8 is a reload history: one mux, 2-4 generations of HTTPServer specs that differ only in the server / path limits (0, -1, positive; "
@@ -147,6 +150,7 @@ def _encode_body(i, o, cfg):
         b_resp_enc=_enc(i["respEnc"], i["respDecl"], i["respTerm"]), b_resp=S(_b(i["respBody"])),
         b_zip=B(i.get("zip")), b_minlen=Z(i.get("minLen") or 0),
         b_ae=("(Some %s)" % S(i["ae"].encode())) if i.get("ae") else "None", b_gz=S(_b(i.get("respGz"))),
+        b_get=B(i.get("method") == "GET"), b_cmax=Z(i.get("cacheMax") or 0),
         b_retry=B(i.get("retry")), b_first_status=Z(i.get("firstStatus") or 0), b_first_body=S(_b(i.get("firstBody"))),
         b_obbody2=S(_b(o.get("bbody2"))),
         b_bad=B(bad), b_ostatus=Z(o["status"]), b_obody=S(_b(o.get("body"))), b_oframe=B(o["frameOK"]),
@@ -166,8 +170,8 @@ def encode(c):
         first = si[0] if si else None
         steps = []
         for a, b in zip(si, so):
-            # pool / proxy limits and compression of the pipeline are those of step 0
-            a = dict(a, pool=first["pool"], proxy=first["proxy"], zip=first.get("zip"), minLen=first.get("minLen"))
+            # compression / retry / mirror settings of the pipeline are those of step 0 (none in generated histories)
+            a = dict(a, zip=first.get("zip"), minLen=first.get("minLen"))
             steps.append(_encode_body(a, b, _cfg(a)))
         return Rec(rl_steps=L(steps), rl_bad=B(bool(o.get("panic")) or len(si) != len(so)))
     cfg = _cfg(i)
